@@ -113,4 +113,42 @@ def validate (s : List Char) : Res Unit :=
   | .error e => .error e
   | .ok ts => validateTokens ts
 
+/-! ### regex.py `isequal`, `issubset`, `issuperset`
+
+`NFA.__eq__` and `NFA.union` belong to other properties (C09, C08); here they are parameters:
+`eq` is the equality test and `uni` the union operation the helpers call. -/
+
+section compare
+variable (eq : NFA Nat Char → NFA Nat Char → Bool)
+variable (uni : NFA Nat Char → NFA Nat Char → NFA Nat Char)
+
+/-- `isequal(re1, re2, input_symbols=…)`: `nfa1 == nfa2`. -/
+def isequal (s1 s2 : List Char) (inputSymbols : Option (List Char)) : Res Bool :=
+  match fromRegex s1 inputSymbols with
+  | .error e => .error e
+  | .ok n1 =>
+    match fromRegex s2 inputSymbols with
+    | .error e => .error e
+    | .ok n2 => .ok (eq n1 n2)
+
+/-- `issubset(re1, re2, input_symbols=…)`: `nfa1.union(nfa2) == nfa2`. -/
+def issubset (s1 s2 : List Char) (inputSymbols : Option (List Char)) : Res Bool :=
+  match fromRegex s1 inputSymbols with
+  | .error e => .error e
+  | .ok n1 =>
+    match fromRegex s2 inputSymbols with
+    | .error e => .error e
+    | .ok n2 => .ok (eq (uni n1 n2) n2)
+
+/-- `issuperset(re1, re2, input_symbols=…)`: `nfa1.union(nfa2) == nfa1`. -/
+def issuperset (s1 s2 : List Char) (inputSymbols : Option (List Char)) : Res Bool :=
+  match fromRegex s1 inputSymbols with
+  | .error e => .error e
+  | .ok n1 =>
+    match fromRegex s2 inputSymbols with
+    | .error e => .error e
+    | .ok n2 => .ok (eq (uni n1 n2) n1)
+
+end compare
+
 end AV.Rx
